@@ -10,4 +10,7 @@ NoCloudWithoutDevice == (Len(hist) >= 1 /\ ~hist[1]) => (s.calls = <<>> /\ s.fil
 NothingFetchedWithoutLogin == (Len(hist) >= 2 /\ ~hist[2]) => (s.calls = <<"login">> /\ s.files = <<>>)
 PluginOnlyAfterProtocol == \A k \in 1..Len(s.files) : s.files[k] = "plugin" => (k = 2 /\ s.files[1] = "lua")
 EscapesOnlyWhenFetching == s.escaped => (Len(s.calls) >= 2 /\ s.exitc = 1)
+(* liveness: the command / operation terminates when its steps keep being taken *)
+FairDSpec == DSpec /\ WF_<<s, hist>>(DNext)
+Terminates == <>(s.pc = "done")
 =======================================================================
